@@ -40,7 +40,8 @@ def run(repo, res, tier):
                         extra={"configs": sorted(set(cfgs)), "origin": origin, "exc": exc}))
     common.triage_tb3(repo, res)
     common.triage_enum(repo, res)
-    table = __import__("vsa.triage", fromlist=["TABLE"]).TABLE
+    table = {k: v for k, v in __import__("vsa.triage", fromlist=["TABLE"]).TABLE.items()
+             if v.get("condition") is None or v["condition"](repo)}      # conditional entries only while their fact holds
     for f in res.findings:
         if f.rule == "T3" and not __import__("vsa.triage", fromlist=["matches"]).matches(f.key, table) \
                 and not any(f is tf for tf, _ in res.triaged):
